@@ -131,6 +131,27 @@ def main(argv):
         return rc
     if pid not in PROPS:
         print("unknown property %s" % pid); return 2
+    if "--replay" in argv:
+        # re-evaluate the property and report whether the recorded finding (by key) is still present
+        import json
+        path = argv[argv.index("--replay") + 1]
+        try:
+            key = json.load(open(path)).get("key")
+        except Exception as e:
+            print("cannot read replay file %s: %s" % (path, e)); return 2
+        import io, contextlib
+        buf = io.StringIO()
+        with contextlib.redirect_stdout(buf):
+            run_one(pid, tier, seed)
+        out = buf.getvalue()
+        import re, hashlib
+        safe = re.sub(r"[^A-Za-z0-9_.-]+", "_", key)[:100] + "-" + hashlib.sha1(key.encode()).hexdigest()[:8]
+        still = ("%s-%s.json" % (pid, safe)) in out
+        print(out, end="")
+        print("REPLAY key=%s %s" % (key, "still violated" if still else "no longer reported"))
+        if still:
+            print("VIOLATION property=%s replay=%s" % (pid, path))
+        return 1 if still else 0
     return run_one(pid, tier, seed)
 
 def run_one(pid, tier, seed):
